@@ -19,8 +19,12 @@
 
    Raw outputs, errors, structures, responses, tool calls are integers (ids).
    A Python exception raised by an environment callable is an explicit
-   constructor (GRaise, WStepRaise, factory_ok = false, PRaise, None): the
-   loops do not catch them, so they propagate and no result is returned. *)
+   constructor (GRaise, WStepRaise, factory_ok = false, PRaise x, CErr x): the
+   loops do not catch them, so they propagate and no result is returned.  The
+   provider's exceptions carry their CLASS (an id x: the library's own
+   NucleusError / ProviderUnavailableError / QuotaExhaustedError /
+   TranscriptionFailedError, builtins, a foreign class): whatever the class, the
+   tool loop neither swallows, converts nor retries it. *)
 From Coq Require Import ZArith List Bool QArith.
 Import ListNotations.
 Open Scope Z_scope.
@@ -296,6 +300,58 @@ Arguments sup_loop_e {Env Hint}.
 Arguments supervise_e {Env Hint}.
 Arguments swarm_runs_e {Env Hint}.
 
+(* ---------------------------------------------------------------------- *)
+(* 2c. a LONG-LIVED swarm: the object's own mutable state                    *)
+
+(* A RegenerativeSwarm is kept and reused for many tasks.  What the OBJECT
+   carries from one supervise() call to the next: _worker_counter and the two
+   event logs _apoptosis_events / _regeneration_events.  The logs are shared by
+   all runs (a SwarmResult returns the very lists, so a later result shows the
+   events of all earlier runs too) and only ever grow.  The budgets of a run are
+   LOCALS of that run: nothing the object has accumulated can reach them. *)
+Record sobj := mkSObj {
+  so_counter : nat;                 (* _worker_counter *)
+  so_ap : list (nat * nat);         (* _apoptosis_events: (worker, steps its memory reports) *)
+  so_rg : list (nat * nat) }.       (* _regeneration_events: (old worker, new worker) *)
+
+Definition sobj0 : sobj := mkSObj 0 [] [].
+
+Section SwarmO.
+Variables Env Hint : Type.
+Variable spawn : Env -> nat -> Hint -> Env * bool.
+Variable wstepf : Env -> nat -> Env * wstep.
+Variable summarize : Env -> nat -> Hint.
+Variable memlen : Env -> nat -> nat.
+Variable h0 : Hint.
+Variable thr : Q.
+
+(* the apoptosis events a run appends: one per worker that collapsed or hit the step limit *)
+Definition ap_events (ws : list (wrece Hint)) : list (nat * nat) :=
+  map (fun x => (w_idx (we_rec x), we_memlen x)) (filter (fun x => is_failed (we_rec x)) ws).
+
+(* supervise() on the object in state o.  Also when an exception propagates the
+   events recorded so far stay on the object, and the counter has counted every
+   factory invocation (the raising one included). *)
+Definition supervise_o (max_regenerations max_steps : Z) (o : sobj) (e : Env)
+  : Env * sobj * swarm_result * list (wrece Hint) :=
+  let '(e', r, ws) := supervise_e spawn wstepf summarize memlen h0 thr
+                                  max_regenerations max_steps (so_counter o) e in
+  (e', mkSObj (so_counter o + length ws) (so_ap o ++ ap_events ws) (so_rg o ++ s_regen r), r, ws).
+
+(* n consecutive calls: (object before, result, per-worker records, object after) *)
+Fixpoint swarm_obj_runs (mg ms : Z) (n : nat) (o : sobj) (e : Env)
+  : list (sobj * swarm_result * list (wrece Hint) * sobj) :=
+  match n with
+  | O => []
+  | S n' =>
+      let '(e', o', r, ws) := supervise_o mg ms o e in
+      (o, r, ws, o') :: swarm_obj_runs mg ms n' o' e'
+  end.
+End SwarmO.
+Arguments ap_events {Hint}.
+Arguments supervise_o {Env Hint}.
+Arguments swarm_obj_runs {Env Hint}.
+
 (* ====================================================================== *)
 (* 3. LLM tool loop — re-entrant                                           *)
 
@@ -312,9 +368,13 @@ Arguments swarm_runs_e {Env Hint}.
    nested and consecutive calls); the Nucleus' own mutable state is its
    transcription_log (list of logged response ids). *)
 
-(* provider.complete_with_tools: (response, tool_calls) or raises *)
-Inductive presp := PResp (c : Z) (calls : list Z) | PRaise.
-Inductive tfinal := TReturned (c : Z) | TProviderRaised.
+(* provider.complete_with_tools: (response, tool_calls) or raises an exception of class x *)
+Inductive presp := PResp (c : Z) (calls : list Z) | PRaise (x : Z).
+(* provider.complete: a response or raises an exception of class x *)
+Inductive cres := COk (c : Z) | CErr (x : Z).
+(* how an activation ends: it returns a response, or the provider's exception
+   (of class x) propagates to the caller *)
+Inductive tfinal := TReturned (c : Z) | TProviderRaised (x : Z).
 
 (* what a registered tool does with the Nucleus while it runs *)
 Inductive taction :=
@@ -361,18 +421,20 @@ Fixpoint execs (t : trace) : nat :=
   | TComplete _ _ _ r => execs r
   end.
 
-Definition final_of (c : option Z) : tfinal :=
-  match c with Some c => TReturned c | None => TProviderRaised end.
+Definition final_of (c : cres) : tfinal :=
+  match c with COk c => TReturned c | CErr x => TProviderRaised x end.
 Definition content_of (f : tfinal) : option Z :=
-  match f with TReturned c => Some c | TProviderRaised => None end.
+  match f with TReturned c => Some c | TProviderRaised _ => None end.
+Definition cres_opt (c : cres) : option Z :=
+  match c with COk c => Some c | CErr _ => None end.
 
 Section Tools.
 Variable St : Type.
 (* provider.complete_with_tools(prompt, ...): sees the base prompt (id q) and the
    tool results the prompt carries *)
 Variable with_tools : St -> Z -> list Z -> St * presp.
-(* provider.complete(prompt): None = raises *)
-Variable complete : St -> Z -> bool -> list Z -> St * option Z.
+(* provider.complete(prompt): a response or an exception *)
+Variable complete : St -> Z -> bool -> list Z -> St * cres.
 (* the tool named by a call: what it does ... *)
 Variable tool_pre : St -> Z -> St * taction.
 (* ... and, when it used the nucleus, the result it computes from the nested
@@ -384,11 +446,11 @@ Variable has_tools has_method : bool.
 
 (* Nucleus.transcribe: one plain completion, logged when it returns *)
 Definition transcribe (s : St) (log : list Z) (q : Z) (final : bool) (prev : list Z)
-  : St * list Z * option Z :=
+  : St * list Z * cres :=
   let '(s1, r) := complete s q final prev in
   match r with
-  | Some c => (s1, log ++ [c], Some c)
-  | None => (s1, log, None)
+  | COk c => (s1, log ++ [c], r)
+  | CErr _ => (s1, log, r)
   end.
 
 Section Level.
@@ -402,8 +464,8 @@ Definition exec_one (s : St) (log : list Z) (call : Z) : St * list Z * inner * Z
   | TClear r => (s1, [], IClear, r)
   | TAsk q =>
       let '(s2, log2, c) := transcribe s1 log q false [] in
-      let '(s3, r) := tool_post s2 call c in
-      (s3, log2, IAsk q c, r)
+      let '(s3, r) := tool_post s2 call (cres_opt c) in
+      (s3, log2, IAsk q (cres_opt c), r)
   | TNest q limit auto =>
       let '(s2, log2, i, c) := nested s1 log q limit auto in
       let '(s3, r) := tool_post s2 call c in
@@ -438,7 +500,7 @@ Fixpoint tool_loop (n : nat) (s : St) (log : list Z) (q : Z) (prev : list Z) (au
   | S n' =>
       let '(s1, r) := with_tools s q prev in
       match r with
-      | PRaise => (s1, log, TTools q prev TNil, TProviderRaised)
+      | PRaise x => (s1, log, TTools q prev TNil, TProviderRaised x)
       | PResp c [] => (s1, log ++ [c], TTools q prev TNil, TReturned c)
       | PResp c calls =>
           if auto then
@@ -515,7 +577,8 @@ Definition local_ok (limit : Z) (t : trace) : Prop :=
 
 (* P holds of every activation nested (at any depth) inside a trace *)
 Section NestedAll.
-Variable P : Z -> bool -> trace -> Prop.    (* max_iterations, auto_execute, the activation's trace *)
+(* max_iterations, auto_execute, the activation's trace, how the activation ended *)
+Variable P : Z -> bool -> trace -> tfinal -> Prop.
 Fixpoint nested_all (t : trace) : Prop :=
   match t with
   | TNil => True
@@ -525,7 +588,7 @@ Fixpoint nested_all (t : trace) : Prop :=
   end
 with inner_all (i : inner) : Prop :=
   match i with
-  | ICall _ limit auto t _ => P limit auto t /\ nested_all t
+  | ICall _ limit auto t f => P limit auto t f /\ nested_all t
   | _ => True
   end.
 End NestedAll.
@@ -550,6 +613,38 @@ with inner_fuel_ok (i : inner) : Prop :=
   | IOutOfFuel => False
   | _ => True
   end.
+
+(* an activation that ended with an exception of class x: the LAST thing it did
+   was a provider invocation (complete_with_tools or the plain completion) that
+   raised x -- the exception the caller sees is the provider's own, from the
+   activation's last invocation (nothing is swallowed, converted or retried) *)
+Section RaisedBy.
+Variable St : Type.
+Variable with_tools : St -> Z -> list Z -> St * presp.
+Variable complete : St -> Z -> bool -> list Z -> St * cres.
+Variable x : Z.
+Fixpoint raised_by_last (t : trace) : Prop :=
+  match t with
+  | TNil => False
+  | TTools q p r =>
+      match r with
+      | TNil => exists s0, snd (with_tools s0 q p) = PRaise x
+      | _ => raised_by_last r
+      end
+  | TExec _ _ _ r => raised_by_last r
+  | TComplete q fin p r =>
+      match r with
+      | TNil => exists s0, snd (complete s0 q fin p) = CErr x
+      | _ => raised_by_last r
+      end
+  end.
+End RaisedBy.
+Arguments raised_by_last {St}.
+
+Definition raise_ok {St : Type} (with_tools : St -> Z -> list Z -> St * presp)
+                    (complete : St -> Z -> bool -> list Z -> St * cres)
+                    (t : trace) (f : tfinal) : Prop :=
+  forall x, f = TProviderRaised x -> raised_by_last with_tools complete x t.
 
 (* ====================================================================== *)
 (* concrete behaviour families used by the generated correspondence cases  *)
@@ -637,14 +732,16 @@ Definition interp_summarize (e : cenv) (_ : nat) : chint :=
    match snd e with [] => false | _ => Nat.eqb (distinct (lastn 3 (snd e))) 1 end).
 Definition interp_memlen (e : cenv) (_ : nat) : nat := length (snd e).
 
-Inductive pitem := PI (c : Z) (calls : list Z) | PIRaise.
+Inductive pitem := PI (c : Z) (calls : list Z) | PIRaise (x : Z).
 Definition pitem_resp (i : pitem) : presp :=
-  match i with PI c calls => PResp c calls | PIRaise => PRaise end.
+  match i with PI c calls => PResp c calls | PIRaise x => PRaise x end.
 Inductive pbeh :=
 | PScript (items : list pitem) (dflt : pitem)      (* by the provider's own (global) invocation index *)
 | PStopOnErr (tools plain : pitem)                 (* plain once a tool result is negative *)
 | PChain (c : Z) (first : list Z)                  (* next calls derived from the results: never repeats *)
-| PBySub (top sub : pitem).                        (* by prompt: top-level prompts (id < 100) / sub-agent prompts *)
+| PBySub (top sub : pitem)                         (* by prompt: top-level prompts (id < 100) / sub-agent prompts *)
+| PFlaky (period phase : nat) (x : Z) (tools : pitem).
+    (* a TRANSIENT failure: raises class x at every invocation g with g mod period = phase, answers `tools` otherwise *)
 
 (* g = number of complete_with_tools invocations made so far on this provider
    object (over all activations, nested or consecutive) *)
@@ -659,17 +756,19 @@ Definition interp_prov (p : pbeh) (g : nat) (q : Z) (prev : list Z) : presp :=
       | _ => PResp (c + Z.of_nat g) (map (fun r => 10 * (Z.abs r mod 50) + Z.of_nat g mod 3) prev)
       end
   | PBySub top sub => if Z.ltb q 100 then pitem_resp top else pitem_resp sub
+  | PFlaky period phase x tools =>
+      if Nat.eqb (Nat.modulo g period) phase then PRaise x else pitem_resp tools
   end.
 
 (* plain completion: response id derived from what the prompt carried *)
-Inductive cbeh := CAff (a : Z) | CRaise | CRaiseFinal
+Inductive cbeh := CAff (a : Z) | CRaise (x : Z) | CRaiseFinal (x : Z)   (* x: exception class *)
 | CConst (c : Z).   (* the same answer whatever the prompt (MockProvider's default response) *)
-Definition interp_complete (c : cbeh) (q : Z) (final : bool) (prev : list Z) : option Z :=
+Definition interp_complete (c : cbeh) (q : Z) (final : bool) (prev : list Z) : cres :=
   match c with
-  | CAff a => Some (a + (if final then 1 else 0) + 2 * fold_right Z.add 0 prev + 7 * q)
-  | CConst c => Some c
-  | CRaise => None
-  | CRaiseFinal => if final then None else Some 0
+  | CAff a => COk (a + (if final then 1 else 0) + 2 * fold_right Z.add 0 prev + 7 * q)
+  | CConst c => COk c
+  | CRaise x => CErr x
+  | CRaiseFinal x => if final then CErr x else COk 0
   end.
 
 (* registered tools.  tool call id = 10 * argument + tool index.
@@ -690,7 +789,7 @@ Definition sub_q (dep : nat) (a : Z) : Z := 100 * Z.of_nat (S dep) + a.
 Definition interp_with_tools (p : pbeh) (s : cst) (q : Z) (prev : list Z) : cst * presp :=
   ((S (fst s), snd s), interp_prov p (fst s) q prev).
 Definition interp_complete_st (c : cbeh) (s : cst) (q : Z) (final : bool) (prev : list Z)
-  : cst * option Z := (s, interp_complete c q final prev).
+  : cst * cres := (s, interp_complete c q final prev).
 
 Definition tool_of (tools : list tkind) (call : Z) : option tkind :=
   nth_error tools (Z.to_nat (call mod 10)).
@@ -798,7 +897,7 @@ with obs_inner (dep : nat) (i : inner) : list (list Z) :=
   | IAsk q _ => [[32; n2z dep; 0; q]]
   | ICall q limit auto t f =>
       [33; n2z dep; q; limit; b2z auto] :: obs_trace dep t
-      ++ [ [34; n2z dep] ++ (match f with TReturned c => [1; c] | TProviderRaised => [0; 0] end)
+      ++ [ [34; n2z dep] ++ (match f with TReturned c => [1; c] | TProviderRaised x => [0; x] end)
            ++ [n2z (rounds t); n2z (completions t); n2z (execs t)] ]
   | IOutOfFuel => [[-996]]
   end.
@@ -834,11 +933,20 @@ Fixpoint swarm_runs (factory_ok : nat -> bool) (beh : nat -> nat -> wstep) (thr 
 (* observations of every call, one after the other; indices are relative to the call *)
 Definition heal_seq (g : gbeh) (v : list (Z * vres)) (decay : Q) (mr : Z) (n : nat) : list (list Z) :=
   flat_map obs_heal (heal_runs (interp_gen g) (interp_val v) decay mr n 0).
+(* ... and, for a returned result, what it shows of the OBJECT's cumulative state:
+   total_workers_spawned, len(apoptosis_events), len(regeneration_events) (the shared logs) *)
+Definition obs_swarm_o (x : sobj * swarm_result * list (wrece chint) * sobj) : list (list Z) :=
+  let '(o, r, ws, o') := x in
+  obs_swarm_e (so_counter o, r, ws)
+  ++ (if s_returned r
+      then [[23; n2z (so_counter o'); n2z (length (so_ap o')); n2z (length (so_rg o'))]]
+      else []).
+
 Definition swarm_seq_e (fac : list bool) (beh : list (list wstep)) (d : wstep) (thr : Q) (mg ms : Z)
                        (p : mpol) (n : nat) : list (list Z) :=
-  flat_map obs_swarm_e
-    (swarm_runs_e (interp_spawn fac p) (interp_wstep beh d p) interp_summarize interp_memlen
-                  (O, false) thr mg ms n 0 (O, [])).
+  flat_map obs_swarm_o
+    (swarm_obj_runs (interp_spawn fac p) (interp_wstep beh d p) interp_summarize interp_memlen
+                    (O, false) thr mg ms n sobj0 (O, [])).
 
 Definition run_case (c : case) : list (list Z) :=
   match c with
